@@ -15,11 +15,7 @@ PROP = {
                   "(sum of earlier term frequencies) are proved; VInt (u32/u64, sorted/unsorted/until-end sequences) round-trips; the field-norm code "
                   "is proved to bracket every n (binary search lemma for any sorted table + facts recomputed on the regenerated 256-entry table), exact "
                   "below 40, monotone, identity on table values; the dictionary order of the specification is proved strict. "
-                  "Partial (no theorem yet, checked by cases only): the positions stream (PositionSerializer/PositionReader are modelled and tied in the decode "
-                  "direction at every block boundary, but the general round-trip theorem is not proved); seek = list semantics (SkipReader::seek, the branchless "
-                  "k-ary in-block search) is checked as a spec predicate on the implementation for generated advance/seek programs, not proved on a cursor model; "
-                  "the TermInfoStore bit layout is checked at the API level on every term; recorders/arena and the SIMD layout are outside the model. "
-                  "Tie: model reader (with the BitPacker4x byte layout as an instance of the abstract codec) decodes what the public PostingsSerializer / "
+                  "The positions stream round-trips for ANY delta list and every window, and the positions of the k-th document are recovered from the cumulative term frequencies (C07_positions_roundtrip, C07_positions_of_doc); a cursor model of SegmentPostings (SkipReader::seek, in-block search with the 8-ary branchless search proved equal to its specification, advance) is proved to observe exactly the sorted list for every call program, TERMINATED sticky, positions through the cursor included (C07_seek, C07_seek_blocks, C07_seek_positions, C07_block_search; seek above TERMINATED never returns: C07_seek_above_terminated_refuted, outside the DocSet contract). Partial: PositionReader's anchor caching and the TermInfoStore bit layout are not modelled (API-level checks on every term); the cursor model is not yet run as a tie case (seek is checked as a spec predicate on the implementation); recorders/arena and the SIMD layout are outside the model. Tie: model reader (with the BitPacker4x byte layout as an instance of the abstract codec) decodes what the public PostingsSerializer / "
                   "PositionSerializer wrote; VInt and field-norm functions vs the implementation. Spec: the definitional index_spec (distinct terms in byte "
                   "order, docs, tf, positions, doc_freq, total tokens, quantised field norm) computed in Coq from the analyzer's token streams and compared with the "
                   "whole inverted index read back from real segments (all value types, record options, fieldnorms on/off, multi-valued fields), plus "
